@@ -97,6 +97,9 @@ class Eval:
     def ev_t(self, t):
         return self.ev(t[1])
 
+    def ev_okcond(self, t):
+        return self.truth(t[1])
+
     def truth(self, c):
         v = self.ev(c)
         if isinstance(v, bool):
@@ -299,9 +302,12 @@ def parse_expr_text(text):
                     fields['..'] = expr()
                     continue
                 fname = take()
-                if take() != ':':
-                    raise ValueError('expected : after field ' + fname)
-                fields[fname] = expr()
+                if peek() in (',', '}'):
+                    fields[fname] = (fname, None)   # shorthand `field,`
+                else:
+                    if take() != ':':
+                        raise ValueError('expected : after field ' + fname)
+                    fields[fname] = expr()
                 if peek() == ',':
                     take()
             take()
